@@ -14,6 +14,45 @@ pub fn step() -> Duration {
     Duration::from_millis(STEP_MS.load(std::sync::atomic::Ordering::Relaxed))
 }
 
+/// "Promptly": a message written into a connection that its writer then keeps open and idle must be
+/// complete at the reader within this time (a direct loopback connection needs microseconds; the
+/// tunnel a few milliseconds; the bound only has to separate "arrives" from "is withheld until
+/// something else happens" on a loaded machine).
+pub static PROMPT_MS: std::sync::atomic::AtomicU64 = std::sync::atomic::AtomicU64::new(10_000);
+pub fn prompt() -> Duration {
+    Duration::from_millis(PROMPT_MS.load(std::sync::atomic::Ordering::Relaxed))
+}
+
+/// In-process side channel between the two scripted ends of ONE connection. The end that
+/// half-closed first cannot acknowledge anything through the connection any more, so it reports
+/// here how many bytes of the still-open direction it has received; the end that keeps the
+/// connection open waits for that report before it goes on (next message / close). Carries no
+/// payload and never touches the sockets.
+#[derive(Debug)]
+pub struct Gate {
+    tx: tokio::sync::watch::Sender<GateState>,
+}
+
+#[derive(Clone, Copy, Debug, Default)]
+pub struct GateState {
+    /// bytes received so far by the end that half-closed first
+    pub received: usize,
+    /// that end has stopped reading (end-of-stream, error or hang)
+    pub ended: bool,
+}
+
+impl Gate {
+    pub fn new() -> Self {
+        Gate { tx: tokio::sync::watch::channel(GateState::default()).0 }
+    }
+    fn report(&self, received: usize, ended: bool) {
+        self.tx.send_replace(GateState { received, ended });
+    }
+    fn subscribe(&self) -> tokio::sync::watch::Receiver<GateState> {
+        self.tx.subscribe()
+    }
+}
+
 #[derive(Clone, Debug, PartialEq, Eq)]
 pub enum Chunk {
     Whole,
@@ -79,6 +118,12 @@ pub enum Role {
     CloseAfter { n: usize },
     /// write `send`, close both directions at once without reading
     DropAfterSend,
+    /// the peer half-closes first: read to end-of-stream, then write `send` one message (= one chunk)
+    /// at a time, KEEPING THE CONNECTION OPEN: after each message wait until the peer reports through
+    /// the gate that it has the whole message (at most `prompt()`; a message not complete by then is
+    /// recorded in `unconfirmed` and ends the dialogue), pause `read_delay_ms` before each message
+    /// and before the close; finally half-close and close
+    Hold,
 }
 
 #[derive(Clone, Debug)]
@@ -86,8 +131,25 @@ pub struct Script {
     pub role: Role,
     pub send: Vec<u8>,
     pub chunk: Chunk,
-    /// wait this long before the first read (a slow reader: back-pressure through the tunnel)
+    /// wait this long before the first read (a slow reader: back-pressure through the tunnel);
+    /// for `Hold`: the pause before each message and before the close
     pub read_delay_ms: u64,
+    /// `Hold` and its peer (`Normal`, which then reports every read through it)
+    pub gate: Option<std::sync::Arc<Gate>>,
+}
+
+/// A message of `Role::Hold` that the peer did not have within `prompt()` although the connection
+/// was open and idle.
+#[derive(Clone, Debug)]
+pub struct Unconfirmed {
+    pub msg: usize,
+    pub offset: usize,
+    pub len: usize,
+    pub waited_ms: u64,
+    /// what the peer had received of the whole direction when the wait ended
+    pub peer_had: usize,
+    /// the peer had stopped reading (end-of-stream / error / hang on its side)
+    pub peer_ended: bool,
 }
 
 #[derive(Clone, Debug, Default)]
@@ -104,6 +166,13 @@ pub struct SideObs {
     pub wrote_after_eof: bool,
     pub eof_ms: Option<u64>,
     pub infra: Option<String>,
+    /// when end-of-stream was read
+    pub eof_at: Option<Instant>,
+    /// `Hold`: taken immediately before the half-close (the peer cannot see end-of-stream earlier)
+    pub closed_at: Option<Instant>,
+    /// `Hold`: per confirmed message, write finished -> peer reports it complete
+    pub confirm_ms: Vec<u64>,
+    pub unconfirmed: Option<Unconfirmed>,
 }
 
 async fn write_chunks<W: AsyncWrite + Unpin>(w: &mut W, data: &[u8], chunk: &Chunk, obs_sent: &mut usize) -> Result<(), String> {
@@ -130,25 +199,35 @@ async fn write_chunks<W: AsyncWrite + Unpin>(w: &mut W, data: &[u8], chunk: &Chu
     Ok(())
 }
 
-async fn read_to_eof<R: AsyncRead + Unpin>(r: &mut R, obs: &mut SideObs, t0: Instant) {
+/// Read to end-of-stream; with a gate, report the running total after every read and the end of reading.
+async fn read_to_eof<R: AsyncRead + Unpin>(r: &mut R, obs: &mut SideObs, t0: Instant, gate: Option<&Gate>) {
     let mut buf = vec![0u8; 64 * 1024];
     loop {
         match tokio::time::timeout(step(), r.read(&mut buf)).await {
             Err(_) => {
                 obs.hang = Some(format!("read after {} bytes (no data, no end-of-stream)", obs.received.len()));
-                return;
+                break;
             }
             Ok(Err(e)) => {
                 obs.read_err = Some(e.to_string());
-                return;
+                break;
             }
             Ok(Ok(0)) => {
                 obs.saw_eof = true;
+                obs.eof_at = Some(Instant::now());
                 obs.eof_ms = Some(t0.elapsed().as_millis() as u64);
-                return;
+                break;
             }
-            Ok(Ok(n)) => obs.received.extend_from_slice(&buf[..n]),
+            Ok(Ok(n)) => {
+                obs.received.extend_from_slice(&buf[..n]);
+                if let Some(g) = gate {
+                    g.report(obs.received.len(), false);
+                }
+            }
         }
+    }
+    if let Some(g) = gate {
+        g.report(obs.received.len(), true);
     }
 }
 
@@ -163,7 +242,7 @@ pub async fn run_side(stream: BoxStream, sc: &Script) -> SideObs {
                 if sc.read_delay_ms > 0 {
                     tokio::time::sleep(Duration::from_millis(sc.read_delay_ms)).await;
                 }
-                read_to_eof(&mut r, &mut obs, t0).await;
+                read_to_eof(&mut r, &mut obs, t0, None).await;
                 obs.wrote_after_eof = obs.saw_eof;
                 // the other direction must still work after the peer's half-close
                 let mut sent = 0;
@@ -191,7 +270,7 @@ pub async fn run_side(stream: BoxStream, sc: &Script) -> SideObs {
                     if sc.read_delay_ms > 0 {
                         tokio::time::sleep(Duration::from_millis(sc.read_delay_ms)).await;
                     }
-                    read_to_eof(&mut r, &mut robs, t0).await;
+                    read_to_eof(&mut r, &mut robs, t0, sc.gate.as_deref()).await;
                 };
                 let ((res, sent, sd, _w), ()) = tokio::join!(wfut, rfut);
                 obs = robs;
@@ -288,6 +367,63 @@ pub async fn run_side(stream: BoxStream, sc: &Script) -> SideObs {
             }
             obs.sent = sent;
             drop(stream);
+        }
+        Role::Hold => {
+            let gate = sc.gate.clone().expect("Role::Hold needs a gate");
+            let mut confirmed = gate.subscribe();
+            let pause = Duration::from_millis(sc.read_delay_ms);
+            let (mut r, mut w) = tokio::io::split(stream);
+            // the peer's payload and its half-close
+            read_to_eof(&mut r, &mut obs, t0, None).await;
+            obs.wrote_after_eof = obs.saw_eof;
+            let mut off = 0;
+            // without the peer's end-of-stream the premise of the dialogue is not established: close
+            let sizes = if obs.saw_eof { sc.chunk.sizes(sc.send.len()) } else { vec![] };
+            for (i, k) in sizes.iter().enumerate() {
+                if !pause.is_zero() {
+                    tokio::time::sleep(pause).await;
+                }
+                match tokio::time::timeout(step(), w.write_all(&sc.send[off..off + k])).await {
+                    Err(_) => {
+                        obs.hang = Some(format!("HANG write at offset {off}"));
+                        break;
+                    }
+                    Ok(Err(e)) => {
+                        obs.write_err = Some(format!("write at offset {off}: {e}"));
+                        break;
+                    }
+                    Ok(Ok(())) => {}
+                }
+                let _ = w.flush().await;
+                let written = Instant::now();
+                let end = off + k;
+                obs.sent = end;
+                // nothing more is written and nothing is closed until the peer has this message
+                let got = match tokio::time::timeout(prompt(), confirmed.wait_for(|g| g.received >= end || g.ended)).await {
+                    Ok(Ok(g)) => Some(*g),
+                    _ => None,
+                };
+                let state = got.unwrap_or_else(|| *confirmed.borrow());
+                if state.received >= end {
+                    obs.confirm_ms.push(written.elapsed().as_millis() as u64);
+                } else {
+                    obs.unconfirmed = Some(Unconfirmed {
+                        msg: i,
+                        offset: off,
+                        len: *k,
+                        waited_ms: written.elapsed().as_millis() as u64,
+                        peer_had: state.received,
+                        peer_ended: state.ended,
+                    });
+                    break;
+                }
+                off = end;
+            }
+            if !pause.is_zero() {
+                tokio::time::sleep(pause).await;
+            }
+            obs.closed_at = Some(Instant::now());
+            obs.shutdown_ok = matches!(tokio::time::timeout(step(), w.shutdown()).await, Ok(Ok(())));
         }
     }
     obs
